@@ -972,7 +972,7 @@ fn val_e4(v: &Val) -> Option<E4> {
             items.push((k, f));
         }
     }
-    if items.len() > 40 {
+    if items.len() > 80 {
         return None;
     }
     let mut miss: Vec<(String, Vec<String>)> = vec![];
@@ -1190,24 +1190,25 @@ fn gen_e4(rng: &mut Rng) -> E4 {
             let f = rng.range(1, 5);
             push(rng, p, c, n, f);
         }
+        items.truncate(60);
         match rng.below(24) {
             0 => {
                 // a key that is not a 3-gram: panics when it passes the filter
                 let k = if rng.chance(1, 2) { "a b".to_string() } else { "a b c d".to_string() };
                 items.push((k, rng.range(1, 5)));
             }
-            1 | 2 => {
+            1..=3 => {
                 // the relative-frequency filter: one heavy item, so that frequency k sits at the
                 // threshold k / total < 1e-4 (total = 10000 k + d)
                 let small: usize = items.iter().map(|x| x.1).sum();
                 let k = rng.range(1, 5);
-                let d = rng.below(5) as isize - 2;
+                let d = if rng.chance(1, 2) { 0 } else { rng.below(5) as isize - 2 };
                 let heavy = (10_000 * k) as isize + d * rng.range(1, 3) as isize - small as isize;
                 if heavy > 0 {
                     items.push(("<bow> x <eow>".into(), heavy as usize));
                 }
             }
-            3 => {
+            4 => {
                 // a frequency of zero
                 if let Some(x) = items.first_mut() {
                     x.1 = 0;
@@ -1257,8 +1258,8 @@ fn gen_e4(rng: &mut Rng) -> E4 {
 }
 
 // ------------------------------------------------------------------ generators
-const ALPHA: &[&str] = &["a", "b", "a", "b", "c", "0", ".", "-", "ä"];
-const ALPHA_G: &[&str] = &["a", "b", "a", "b", "0", ".", "ä", "e\u{301}", "😀", "n\u{303}"];
+const ALPHA: &[&str] = &["a", "b", "a", "b", "c", "0", ".", "-", "ä", "ª", "²", "_", "ǅ", "„"];
+const ALPHA_G: &[&str] = &["a", "b", "a", "b", "0", ".", "ä", "e\u{301}", "😀", "n\u{303}", "ª", "²", "_", "\u{345}", "ⅷ"];
 const SEAMY: &[&str] = &["\u{301}", "🇩", "🇪", "\u{1100}", "\u{1161}", "\u{200d}", "क", "\u{94d}", "\r", "\n"];
 
 fn unit(rng: &mut Rng, g: bool, seam: bool) -> &'static str {
@@ -1579,6 +1580,32 @@ impl Prop for C15 {
         // the constant of the relative-frequency filter (C15_Tables.min_rel_freq, pinned as min_rel_freq_bits)
         if f64_val(1.0 / 10_000.0).to_sexp() != "(0 7378697629483821 -66)" {
             errs.push("min_rel_freq constant".into());
+        }
+        // the class tables behind can_delete / can_swap (UCD_Table.v) are what tools/gen_ucd.py translates from the
+        // std library and regex-syntax sources, and of the Unicode version of the running std
+        let md = env!("CARGO_MANIFEST_DIR");
+        for rel in ["..", "../.."] {
+            let root = std::path::Path::new(md).join(rel);
+            let p = root.join("tools/gen_ucd.py");
+            if p.exists() {
+                match std::process::Command::new("python3").arg(&p).arg("--check").output() {
+                    Ok(o) if o.status.success() => {}
+                    Ok(o) => errs.push(format!(
+                        "tools/gen_ucd.py --check: {} {}",
+                        String::from_utf8_lossy(&o.stdout).trim(),
+                        String::from_utf8_lossy(&o.stderr).trim().lines().last().unwrap_or("")
+                    )),
+                    Err(e) => errs.push(format!("tools/gen_ucd.py --check could not run: {e}")),
+                }
+                let (x, y, z) = char::UNICODE_VERSION;
+                let want = format!("Definition std_unicode_version : N * N * N := ({x}, {y}, {z})%N.");
+                match std::fs::read_to_string(root.join("coq/theories/UCD_Table.v")) {
+                    Ok(t) if t.contains(&want) => {}
+                    Ok(_) => errs.push(format!("UCD_Table.v is not of the Unicode version {x}.{y}.{z} of the running std")),
+                    Err(e) => errs.push(format!("UCD_Table.v unreadable: {e}")),
+                }
+                break;
+            }
         }
         // the context strings of the model
         if Val::str("<bow>").to_sexp() != "(60 98 111 119 62)" || Val::str("<eow>").to_sexp() != "(60 101 111 119 62)" {
